@@ -112,6 +112,28 @@ pub struct StunDecoded {
     /// Refresh responses). Honored per RFC 5766 §2.2 — the server may grant a
     /// lifetime shorter than the one requested by the client.
     pub lifetime: Option<u32>,
+    /// USERNAME attribute (0x0006), if present and valid UTF-8.
+    pub username: Option<String>,
+    /// Byte offset of the MESSAGE-INTEGRITY attribute header (0x0008, 20-byte value), if present.
+    pub integrity_offset: Option<usize>,
+}
+
+impl StunDecoded {
+    /// RFC 5389 15.4: verify MESSAGE-INTEGRITY over `raw` (the bytes this message was
+    /// decoded from) with the short-term credential `key`.
+    pub fn verify_integrity(&self, raw: &[u8], key: &[u8]) -> bool {
+        let Some(off) = self.integrity_offset else {
+            return false;
+        };
+        if off < 20 || raw.len() < off + 24 {
+            return false;
+        }
+        let mut head = raw[..off].to_vec();
+        write_length_field(&mut head, off - 20 + 24);
+        let mut mac = <HmacSha1 as hmac::digest::KeyInit>::new_from_slice(key).expect("HMAC key init");
+        mac.update(&head);
+        mac.verify_slice(&raw[off + 4..off + 24]).is_ok()
+    }
 }
 
 fn encode_stun_message(
@@ -328,6 +350,8 @@ fn decode_stun_message(bytes: &[u8]) -> Result<StunDecoded> {
     let mut data = None;
     let mut use_candidate = false;
     let mut lifetime = None;
+    let mut username = None;
+    let mut integrity_offset = None;
     while offset + 4 <= bytes.len() {
         let typ = u16::from_be_bytes([bytes[offset], bytes[offset + 1]]);
         let len = u16::from_be_bytes([bytes[offset + 2], bytes[offset + 3]]) as usize;
@@ -380,6 +404,12 @@ fn decode_stun_message(bytes: &[u8]) -> Result<StunDecoded> {
             0x0025 => {
                 use_candidate = true;
             }
+            0x0006 => {
+                username = std::str::from_utf8(value).ok().map(str::to_string);
+            }
+            0x0008 if len == 20 && integrity_offset.is_none() => {
+                integrity_offset = Some(offset - 4);
+            }
             _ => {}
         }
         offset += len;
@@ -398,6 +428,8 @@ fn decode_stun_message(bytes: &[u8]) -> Result<StunDecoded> {
         data,
         use_candidate,
         lifetime,
+        username,
+        integrity_offset,
     })
 }
 
